@@ -70,3 +70,12 @@ Print Assumptions C07_every_output_finite_casadi.
 Theorem C07_finite_hypotheses_satisfiable : finite_example_meets_hypotheses.
 Proof. exact finite_example_ok. Qed.
 Print Assumptions C07_finite_hypotheses_satisfiable.
+(* the usual reading: a non-negative state (left as it is by the positive_init_* clamps), every option set *)
+Theorem C07_every_output_finite_from_nonnegative_numpy :
+  every_output_finite_from_nonnegative (@np_engine PR NumPR) (@np_engine R NumR).
+Proof. exact np_every_output_finite_from_nonnegative. Qed.
+Print Assumptions C07_every_output_finite_from_nonnegative_numpy.
+Theorem C07_every_output_finite_from_nonnegative_casadi :
+  every_output_finite_from_nonnegative (@cs_engine PR NumPR) (@cs_engine R NumR).
+Proof. exact cs_every_output_finite_from_nonnegative. Qed.
+Print Assumptions C07_every_output_finite_from_nonnegative_casadi.
